@@ -9,14 +9,30 @@
 // github.com/yandex/pandora/... and a small list of standard types whose state matters here (math/rand, sync/atomic
 // values, net/http.Request, net/url, bytes/strings readers). Any other struct type is an opaque leaf: identity is
 // recorded, content is neither walked nor snapshotted (zap loggers, grpc connections, descriptors, contexts,
-// sync.Mutex/Map/Pool …).
+// sync.Mutex/Pool …).
+//
+// A sync.Map (the templaters' caches, or any cache a component keeps) is entered through its own Range method: the
+// keys and values stored in it are reachable from every instance that reaches the map (the map itself synchronises its
+// content and is no unit; a change of its content is not a change of the unit that contains it).
+//
+// A func value is a pointer to a closure object (code pointer + captured variables). A func value whose closure
+// object lives on the heap has captured variables, i.e. state: it is an allocation unit of kind Func, labelled
+// "<place>(closure:<pkg>:<enclosing function>.func<N>)" (canonical name: receiver and inlining prefixes dropped, so
+// that it can be joined with the closure facts regenerated from the source, gen area `locks`). The layout of a closure
+// object is not available at run time: its captured variables are not walked; which of them the function writes is a
+// static fact (Gen.Locks.closures). Top-level functions and literals that capture nothing are static data: no unit.
 package c11lib
 
 import (
+	"bufio"
 	"fmt"
 	"hash/fnv"
+	"os"
 	"reflect"
+	"regexp"
+	"runtime"
 	"sort"
+	"strconv"
 	"strings"
 	"sync"
 	"unsafe"
@@ -132,6 +148,10 @@ func (g *Graph) walk(v reflect.Value, label string, depth int) {
 		if !g.visitUnit(v, reflect.Ptr, et, lab+"(*"+shortType(et)+")") {
 			return
 		}
+		if isSyncMap(et) {
+			g.walkSyncMap(v.Elem(), lab, depth+1)
+			return
+		}
 		if et.Kind() == reflect.Struct && !descendStruct(et) {
 			return
 		}
@@ -182,8 +202,17 @@ func (g *Graph) walk(v reflect.Value, label string, depth int) {
 			return
 		}
 		g.visitUnit(v, reflect.Chan, v.Type(), label+"(chan)")
+	case reflect.Func:
+		if v.IsNil() {
+			return
+		}
+		g.visitClosure(v, label)
 	case reflect.Struct:
 		t := v.Type()
+		if isSyncMap(t) {
+			g.walkSyncMap(addressable(v), label, depth)
+			return
+		}
 		if !descendStruct(t) {
 			return
 		}
@@ -197,6 +226,140 @@ func (g *Graph) walk(v reflect.Value, label string, depth int) {
 		}
 	}
 }
+
+// ---------------------------------------------------------------- sync.Map, closures
+
+var syncMapType = reflect.TypeOf(sync.Map{})
+
+func isSyncMap(t reflect.Type) bool { return t == syncMapType }
+
+// syncMapOf: the *sync.Map behind an addressable value of type sync.Map (also one reached through unexported fields).
+func syncMapOf(v reflect.Value) *sync.Map {
+	if !v.CanAddr() {
+		return nil
+	}
+	return (*sync.Map)(unsafe.Pointer(v.UnsafeAddr()))
+}
+
+func (g *Graph) walkSyncMap(v reflect.Value, label string, depth int) {
+	m := syncMapOf(v)
+	if m == nil {
+		return
+	}
+	m.Range(func(k, val any) bool {
+		if k != nil {
+			g.walk(addressableIfStruct(reflect.ValueOf(k)), label+"{synckey}", depth+1)
+		}
+		if val != nil {
+			g.walk(addressableIfStruct(reflect.ValueOf(val)), label+"{sync}", depth+1)
+		}
+		return true
+	})
+}
+
+// closureObject: the address of the closure object a func value points to.
+func closureObject(v reflect.Value) uintptr {
+	v = addressable(v)
+	return *(*uintptr)(unsafe.Pointer(v.UnsafeAddr()))
+}
+
+type addrRange struct{ lo, hi uintptr }
+
+var (
+	staticOnce   sync.Once
+	staticRanges []addrRange
+)
+
+// isStatic: does the address lie in a mapping of the executable file (text, rodata, data, bss)? Closure objects of
+// top-level functions, of method expressions and of literals that capture nothing are static symbols; a closure that
+// captured variables is allocated (heap, or the stack of a live frame).
+func isStatic(p uintptr) bool {
+	staticOnce.Do(func() {
+		exe, err := os.Executable()
+		if err != nil {
+			return
+		}
+		f, err := os.Open("/proc/self/maps")
+		if err != nil {
+			return
+		}
+		defer f.Close()
+		sc := bufio.NewScanner(f)
+		var last addrRange
+		lastExe := false
+		for sc.Scan() {
+			fs := strings.Fields(sc.Text())
+			if len(fs) < 5 {
+				continue
+			}
+			ab := strings.SplitN(fs[0], "-", 2)
+			lo, e1 := strconv.ParseUint(ab[0], 16, 64)
+			hi, e2 := strconv.ParseUint(ab[1], 16, 64)
+			if e1 != nil || e2 != nil {
+				continue
+			}
+			r := addrRange{uintptr(lo), uintptr(hi)}
+			isExe := len(fs) >= 6 && fs[5] == exe
+			// the bss of the executable is an anonymous mapping that directly follows its data mapping
+			if !isExe && len(fs) == 5 && lastExe && last.hi == r.lo {
+				isExe = true
+			}
+			if isExe {
+				staticRanges = append(staticRanges, r)
+			}
+			last, lastExe = r, isExe
+		}
+	})
+	for _, r := range staticRanges {
+		if p >= r.lo && p < r.hi {
+			return true
+		}
+	}
+	return false
+}
+
+var closureSuffix = regexp.MustCompile(`([A-Za-z_][A-Za-z0-9_]*)\.(func[0-9]+(?:\.[0-9]+)*)$`)
+
+// ClosureName: canonical name of the function behind a code pointer: "<import path below pandora>:<enclosing
+// function>.func<N>[.<M>]" for function literals (receiver types and the prefixes added by inlining dropped),
+// "<import path>:<rest>" for anything else (method values "T.M-fm", top-level functions).
+func ClosureName(pc uintptr) string {
+	f := runtime.FuncForPC(pc)
+	if f == nil {
+		return "?"
+	}
+	name := f.Name()
+	pkg, rest := name, ""
+	if i := strings.LastIndex(name, "/"); i >= 0 {
+		if j := strings.Index(name[i:], "."); j >= 0 {
+			pkg, rest = name[:i+j], name[i+j+1:]
+		}
+	} else if j := strings.Index(name, "."); j >= 0 {
+		pkg, rest = name[:j], name[j+1:]
+	}
+	pkg = strings.TrimPrefix(pkg, "github.com/yandex/pandora/")
+	if m := closureSuffix.FindStringSubmatch(rest); m != nil {
+		return pkg + ":" + m[1] + "." + m[2]
+	}
+	return pkg + ":" + rest
+}
+
+func (g *Graph) visitClosure(v reflect.Value, label string) {
+	obj := closureObject(v)
+	if obj == 0 || isStatic(obj) {
+		return
+	}
+	k := unitKey{obj, reflect.Func, v.Type()}
+	u, ok := g.Units[k]
+	if !ok {
+		u = &Unit{key: k, val: v, labels: map[string]bool{}}
+		g.Units[k] = u
+	}
+	u.labels[label+"(closure:"+ClosureName(v.Pointer())+")"] = true
+}
+
+// IsClosure: is the unit a closure object?
+func (u *Unit) IsClosure() bool { return u.key.kind == reflect.Func }
 
 func addressableIfStruct(v reflect.Value) reflect.Value {
 	if v.IsValid() && v.Kind() == reflect.Struct {
@@ -247,6 +410,21 @@ func Shared(a, b *Graph) []*Unit {
 		}
 	}
 	sort.Slice(out, func(i, j int) bool { return out[i].Label() < out[j].Label() })
+	return out
+}
+
+// NotIn returns the units of us that are not (by identity) among base.
+func NotIn(us, base []*Unit) []*Unit {
+	have := map[unitKey]bool{}
+	for _, u := range base {
+		have[u.key] = true
+	}
+	var out []*Unit
+	for _, u := range us {
+		if !have[u.key] {
+			out = append(out, u)
+		}
+	}
 	return out
 }
 
@@ -326,7 +504,11 @@ func shallow(hs hasher, v reflect.Value, depth int) {
 	case reflect.Ptr, reflect.Map, reflect.Chan, reflect.UnsafePointer:
 		fmt.Fprint(hs, "@", v.Pointer())
 	case reflect.Func:
-		fmt.Fprint(hs, "fn", v.IsNil())
+		if v.IsNil() {
+			fmt.Fprint(hs, "fn-nil")
+		} else {
+			fmt.Fprint(hs, "fn@", closureObject(v))
+		}
 	case reflect.Slice:
 		fmt.Fprint(hs, "@", v.Pointer(), v.Len())
 	case reflect.Interface:
@@ -342,6 +524,11 @@ func shallow(hs hasher, v reflect.Value, depth int) {
 		}
 	case reflect.Struct:
 		t := v.Type()
+		if isSyncMap(t) {
+			// a sync.Map synchronises its own content: storing into it is not a write to the unit that contains it; what
+			// is stored in it is walked (walkSyncMap) and snapshotted as units of its own
+			return
+		}
 		if !descendStruct(t) {
 			return
 		}
